@@ -7,6 +7,8 @@ SeqsBetween(S, lo, hi) == UNION {[1..k -> S] : k \in lo..hi}
 \* (a trailing separator only where the source is left as written: behind a leading form, or after three or more segments)
 Init == \E p \in Prefixes : \E sg \in SeqsBetween(Names, 1, MaxSegs) : \E r \in SeqsBetween(RefSegs, 0, MaxRef) : \E tr \in BOOLEAN :
             /\ tr => (p # "none" \/ Len(sg) >= 3)
+            \* dot-only names ("." / "..") only as a later segment of a source that is left as written: segments are counted as WRITTEN
+            /\ \A i \in 1..Len(sg) : sg[i] \in {".", ".."} => (i > 1 /\ (p # "none" \/ Len(sg) >= 3))
             /\ c = [prefix |-> p, segs |-> sg, ref |-> r, trail |-> tr]
 Next == FALSE /\ c' = c
 Spec == Init /\ [][Next]_c
